@@ -43,7 +43,7 @@ RULE = ('three arms, chosen per run.  sched: 2-3 client tasks (committers, '
         'the pack (crash) / a fault fired (fail); distinct = schedule trace '
         'or image hash or (history, fault)')
 BUDGET = {'quick': {'runs': 1600, 'wall': 300, 'chunk': 10},
-          'thorough': {'runs': 90000, 'wall': 2400, 'chunk': 20}}
+          'thorough': {'runs': 90000, 'wall': 1800, 'chunk': 20}}
 ASSUMPTIONS = [
     'pre-emption points are lock operations and raw file I/O',
     'crash model: prefix of the issued low-level operations (renames and '
